@@ -57,6 +57,9 @@ def _ray3d(
     ray = np.empty((max_step, 3), dtype=np.float64)
     ray[0] = pcur.copy()
     while dist3d(zsrc, xsrc, ysrc, pcur[0], pcur[1], pcur[2]) >= stepsize:
+        if count >= max_step:
+            raise RuntimeError("maximum number of steps reached")
+
         gz = interp3d(z, x, y, zgrad, pcur)
         gx = interp3d(z, x, y, xgrad, pcur)
         gy = interp3d(z, x, y, ygrad, pcur)
@@ -93,9 +96,9 @@ def _ray3d(
                 lower[0] = z[max(i - 1, 0)] if pcur[0] == z[i] else z[i]
                 lower[1] = x[max(j - 1, 0)] if pcur[1] == x[j] else x[j]
                 lower[2] = y[max(k - 1, 0)] if pcur[2] == y[k] else y[k]
-                upper[0] = z[i + 1]
-                upper[1] = x[j + 1]
-                upper[2] = y[k + 1]
+                upper[0] = z[min(i + 1, nz - 1)]
+                upper[1] = x[min(j + 1, nx - 1)]
+                upper[2] = y[min(k + 1, ny - 1)]
 
                 ray[count] = pcur.copy()
                 count += 1
@@ -112,8 +115,8 @@ def _ray3d(
             ray[count] = pcur.copy()
             count += 1
 
-        if count >= max_step:
-            raise RuntimeError("maximum number of steps reached")
+    if count >= max_step:
+        raise RuntimeError("maximum number of steps reached")
 
     ray[count] = np.array([zsrc, xsrc, ysrc], dtype=np.float64)
 
